@@ -3,23 +3,42 @@
  "property": "C16",
  "standin": "B-seed",
  "bound": "fixed list of 39 (quick) / 48 (thorough) set / frozenset / dict / Enum values, each rendered by code_repr and _value_to_code in separate interpreters with PYTHONHASHSEED 0..3 (quick) / 0..7 (thorough) x {black, black import blocked, format_command=cat}; 6 extra construction orders per top-level set; dict insertion order (F15) not varied",
- "input": "({\"x\", \"y\", \"z\", \"w\"},)",
- "detail": "4 failures without a known finding in this run (4 listed). code_repr text differs between hash seeds: PYTHONHASHSEED=[0]: \"({'y', 'x', 'w', 'z'},)\"; PYTHONHASHSEED=[1]: \"({'x', 'z', 'w', 'y'},)\"; PYTHONHASHSEED=[2]: \"({'y', 'z', 'w', 'x'},)\"; PYTHONHASHSEED=[3]: \"({'z', 'x', 'y', 'w'},)\""
+ "input": "{Color.RED: 1, Color.GREEN: {Size.M, Size.L}}",
+ "detail": "4 failures without a known finding in this run (4 listed). mode=black PYTHONHASHSEED=0: text does not evaluate back to the value (repr_evals_back=SyntaxError: invalid syntax (<string>, line 1), code_evals_back=SyntaxError: invalid syntax (<string>, line 1)); code_repr=\"{<Color.RED: 'r'>: 1, <Color.GREEN: 'g'>: {Size.M, Size.L}}\" _value_to_code=\"{<Color .RED :'r'>:1 ,<Color .GREEN :'g'>:{Size .M ,Size .L }}\" piped=None"
 }
 """
 
 # run with: /verif/.venv/bin/python <this file>      (inline_snapshot is the editable install of /repo)
-import os, subprocess, sys
-EXPR = '({"x", "y", "z", "w"},)'
+import ast, os, subprocess, sys, tempfile
+EXPR = '{Color.RED: 1, Color.GREEN: {Size.M, Size.L}}'
+d = tempfile.mkdtemp()
+open(os.path.join(d, "black.py"), "w").write("raise ImportError('black is blocked')\n")
 CHILD = 'from enum import Enum, Flag, IntEnum\nclass Color(Enum):\n    RED = "r"\n    GREEN = "g"\n    BLUE = "b"\nclass Size(IntEnum):\n    S = 1\n    M = 2\n    L = 3\nclass Perm(Flag):\n    R = 4\n    W = 2\n    X = 1\n' + """
-import sys
-from inline_snapshot._code_repr import code_repr
-sys.stdout.write(code_repr(eval(sys.argv[1])))
+import os, sys, tempfile
+from pathlib import Path
+from executing import Source
+from inline_snapshot import _config
+from inline_snapshot._format import format_code
+from inline_snapshot._source_file import SourceFile
+p = os.path.join(tempfile.mkdtemp(), "snap.py")
+open(p, "w").write("x = 1\\n")
+sf = SourceFile(Source.for_filename(p))
+v = eval(sys.argv[2])
+if sys.argv[1] == "cat":
+    _config.config.format_command = "cat"
+    text = format_code(sf._value_to_code(v), Path(p)).strip()
+else:
+    text = sf._value_to_code(v)
+assert eval(text) == v, "text does not evaluate back: " + text
+sys.stdout.write(text)
 """
-texts = {}
-for seed in [0, 1, 2, 3]:
-    env = dict(os.environ, PYTHONHASHSEED=str(seed))
-    texts[seed] = subprocess.run([sys.executable, "-c", CHILD, EXPR], env=env, capture_output=True, text=True, check=True).stdout
-    print(seed, texts[seed])
-assert len(set(texts.values())) == 1, "code_repr text differs between hash seeds"
+dumps = {}
+for mode in ("black", "noblack", "cat"):
+    env = dict(os.environ, PYTHONHASHSEED="0")
+    if mode == "noblack":
+        env["PYTHONPATH"] = d
+    text = subprocess.run([sys.executable, "-c", CHILD, mode, EXPR], env=env, capture_output=True, text=True, check=True).stdout
+    print(mode, repr(text))
+    dumps[mode] = ast.dump(ast.parse(text))
+assert len(set(dumps.values())) == 1, "the formatter variant changes the syntax tree of the written text"
 
